@@ -319,6 +319,11 @@ impl BatchSemaphoreState {
                 assert!(waiter.is_queued.swap(false, Ordering::SeqCst));
                 assert!(!waiter.has_permits.swap(true, Ordering::SeqCst));
                 ExecutionState::with(|s| {
+                    // At the end of an execution the tasks are torn down one by one: a queued `Acquire` dropped
+                    // there can hand its place to the next waiter, whose task is already gone.
+                    if s.in_cleanup() {
+                        return;
+                    }
                     let task = s.get_mut(waiter.task_id());
                     assert!(!task.finished());
                     // The acquiry is causally dependent on the event
